@@ -122,7 +122,7 @@ def _gen_case(rng, fams, kind, nops):
 
 
 def generate(rng, tier):
-    n = 420 if tier == "quick" else 9000
+    n = 420 if tier == "quick" else 6000
     out = []
     for i in range(n):
         kind = rng.choice(["plain", "io", "io", "ioset", "ioset"])
